@@ -163,8 +163,22 @@ def modelFQ (size : Nat) (ops : List String) : String :=
     let s := (List.range (q + 1)).foldl (fun s _ => step cfg s .fdrain) s
     s!"cap={sysFanoutCap} q={q} dead={",".intercalate (s.dead.map fun m => toString m.2)}"
 
+/-- `gc <n> <maxBatch>`: n first senders race through getCoalescer (all miss the fast path, then
+    take the mutex one after the other); the batch boundaries depend on the order in which the racing
+    goroutines enqueue, so only the order-independent part is printed -/
+def modelGC (n : Nat) : String :=
+  let acts : List GC.GAct := (List.range n).map (GC.GAct.look ·) ++
+    (List.range n).flatMap fun t => [GC.GAct.acquire t, .cs, .cs, .cs]
+  let s := GC.grun true (GC.ginit n) acts
+  let ids := (List.range n).flatMap fun t => [s!"{t}.0", s!"{t}.1"]
+  s!"writers={s.created} inflight=1 | M {" ".intercalate ids}"
+
 def model (line : String) : String :=
   match words line with
+  | ["gc", n, mb] =>
+    match n.toNat?, mb.toNat? with
+    | some n, some mb => if n < 1 || n > 8 || mb < 1 || 4 * mb < 2 * n then "bad-case" else modelGC n
+    | _, _ => "bad-case"
   | "fq" :: size :: ops =>
     match size.toNat? with
     | some size => if size > 1024 then "bad-case" else modelFQ size ops
@@ -240,6 +254,21 @@ def judge (line : String) : String :=
   -- without a configured error handler there is nobody to report a failed batch to
   let hdl := (words c).getD 2 "1" == "1"
   if o == "STALL" || o == "bad-case" then "ok" else
+  if (words c).head? == some "gc" then
+    -- order oracle per sender over the batches in the order the remote node completed them
+    match o.splitOn " | B " with
+    | [_, bs] =>
+      match (words bs).mapM fun w => (parseTags ((w.splitOn ":").headD "")) with
+      | none => "bad unparsable output: " ++ o
+      | some bl =>
+        let flushed := bl.flatten
+        let n := ((words c).getD 1 "0").toNat?.getD 0
+        let sent := (List.range n).flatMap fun t => [(t, 0), (t, 1)]
+        if !Spec.C27.orderOK sent flushed then "bad order: a thread's messages reached the transport out of send order or twice"
+        else if !sent.all (flushed.contains ·) then "bad silently-dropped: an accepted message never reached the remote node"
+        else "ok"
+    | _ => if o.startsWith "HARNESS-FAIL" then "bad " ++ o else "bad unparsable output: " ++ o
+  else
   if (words c).head? == some "fq" then
     -- every message handed to the error handler is dead-lettered: failures the oracle flags are the
     -- hand-offs the handler dropped (finding C27-F2)
